@@ -34,6 +34,10 @@ def _mod(name: str):
     return m
 
 
+class ReplayDiverged(HarnessError):
+    """Re-running a choice prefix did not meet the same menus: behaviour depends on something uncontrolled."""
+
+
 class Execution:
     __slots__ = ("choices", "menus", "ready_flags", "trace", "viols", "obs", "nontrivial", "hang", "steps")
 
@@ -67,9 +71,9 @@ def run_once(modname: str, cfg: Any, prefix: list, expect_menus: list | None = N
                 i = len(x.choices)
                 c = prefix[i] if i < len(prefix) else 0
                 if expect_menus is not None and i < len(expect_menus) and list(expect_menus[i]) != menu:
-                    raise HarnessError(f"replay diverged at point {i}: menu {menu} != recorded {expect_menus[i]}")
+                    raise ReplayDiverged(f"replay diverged at point {i}: menu {menu} != recorded {expect_menus[i]}")
                 if c >= len(menu):
-                    raise HarnessError(f"choice {c} out of range at point {i} (menu {menu})")
+                    raise ReplayDiverged(f"choice {c} out of range at point {i} (menu {menu})")
                 x.choices.append(c)
                 x.menus.append(menu)
                 x.ready_flags.append(ready)
@@ -83,7 +87,7 @@ def run_once(modname: str, cfg: Any, prefix: list, expect_menus: list | None = N
             if steps > horizon:
                 raise HarnessError(f"execution exceeded its horizon of {horizon} steps (cfg {cfg}, prefix {prefix})")
         if len(prefix) > len(x.choices):
-            raise HarnessError(f"prefix {prefix} longer than the execution's {len(x.choices)} choice points")
+            raise ReplayDiverged(f"prefix {prefix} longer than the execution's {len(x.choices)} choice points")
         x.steps = steps
         x.viols = list(sc.verdict(x.hang))
         x.obs = sc.observation()
@@ -127,7 +131,12 @@ def _subtree(job):
     stack = [prefix]
     while stack:
         p = stack.pop()
-        x = run_once(modname, cfg, p)
+        try:
+            x = run_once(modname, cfg, p)
+        except ReplayDiverged as err:
+            stats["diverged"] = stats.get("diverged", 0) + 1
+            stats["diverged_example"] = str(err)[:300]
+            continue
         _account(stats, x, cfg, p)
         stack.extend(children(x, len(p), K))
     stats["outcomes"] = list(stats["outcomes"])
@@ -145,7 +154,12 @@ def explore(ctx: core.Ctx, modname: str, cfgs: list, K: int) -> dict:
         while frontier and len(frontier) < 4 and rounds < 3:
             nxt = []
             for p in frontier:
-                x = run_once(modname, cfg, p)
+                try:
+                    x = run_once(modname, cfg, p)
+                except ReplayDiverged as err:
+                    total["diverged"] = total.get("diverged", 0) + 1
+                    total["diverged_example"] = str(err)[:300]
+                    continue
                 _account(total, x, cfg, p)
                 nxt.extend(children(x, len(p), K))
             frontier = nxt
@@ -158,16 +172,35 @@ def explore(ctx: core.Ctx, modname: str, cfgs: list, K: int) -> dict:
         total["outcomes"].update(st["outcomes"])
         total["max_points"] = max(total["max_points"], st["max_points"])
         total["hangs"] += st["hangs"]
+        total["diverged"] = total.get("diverged", 0) + st.get("diverged", 0)
+        if st.get("diverged_example"):
+            total["diverged_example"] = st["diverged_example"]
         total["viols"].extend(st["viols"])
         if st["sample"] and (total["sample"] is None or len(st["sample"]["trace"]) > len(total["sample"]["trace"])):
             total["sample"] = st["sample"]
     total["violations"] = [Violation(k, w, rep) for k, w, rep in total.pop("viols")]
+    if total.get("diverged") and not total["violations"]:
+        # on a tree where the property holds nothing may depend on uncontrolled nondeterminism
+        raise HarnessError(f"{total['diverged']} replays diverged and no violation was found: {total.get('diverged_example')}")
     total["distinct_outcomes"] = len(total.pop("outcomes"))
     return total
 
 
 def replay(modname: str, data: dict) -> dict:
-    x = run_once(modname, data["cfg"], data["choices"], data.get("menus"))
+    try:
+        x = run_once(modname, data["cfg"], data["choices"], data.get("menus"))
+    except ReplayDiverged as err:
+        # the recorded schedule cannot be re-run exactly: the code under test depends on something outside the
+        # controlled choices (e.g. iteration order of a set of task objects). Re-explore this one configuration
+        # without early firings and report whether the property is violated again.
+        ctx = core.Ctx(prop="replay", tier="quick", seed=0, workers=1)
+        try:
+            res = explore(ctx, modname, [data["cfg"]], 0)
+            keys = sorted({v.key for v in res["violations"]})
+        except HarnessError as err2:
+            keys = []
+            err = err2
+        return {"violated": bool(keys), "violations": [{"key": k, "what": "found again by re-exploring the configuration"} for k in keys], "diverged": str(err)[:200]}
     return {
         "violated": bool(x.viols),
         "violations": [{"key": k, "what": w} for k, w, _ in x.viols],
